@@ -253,6 +253,7 @@ def runSql (c : Case) : CaseOut := Id.run do
   let mut emits : List WinSpec.Ev := []
   let mut bad : Option String := none
   let mut delivered : List (Nat × Int × Int × List Nat) := []
+  let mut deliveredIv : List (Int × Int × String) := []   -- (start, stop, batch) of every result line so far
   let late := cfgInt c "late" 0
   let grpOf (ks : List String) (k : String) : Nat := (ks.idxOf k)
   for (op, implObs) in c.ops do
@@ -273,8 +274,11 @@ def runSql (c : Case) : CaseOut := Id.run do
           let a := (parseInt ws).getD 0
           let b := (parseInt we).getD 0
           let g := grpOf keys k
+          let batch := (ids.find? (·.startsWith "b")).getD "b?"
           -- a result for an interval already delivered for this group is a re-delivery (ALLOWEDLATENESS > 0):
           -- same bounds (hence same window_id), previous rows first, then further rows of the group in the interval
+          let seenBefore := deliveredIv
+          deliveredIv := deliveredIv ++ [(a, b, batch)]
           match delivered.find? (fun d => d.1 == g && d.2.1 == a && d.2.2.1 == b) with
           | some d =>
             let prev := d.2.2.2
@@ -287,7 +291,7 @@ def runSql (c : Case) : CaseOut := Id.run do
             if (!okExtra || idl.eraseDups.length != idl.length) && bad.isNone then bad := some "re-delivery-row-not-of-this-group-and-interval"
             delivered := delivered.map (fun x => if x.1 == g && x.2.1 == a && x.2.2.1 == b then (g, a, b, idl) else x)
           | none =>
-            if late > 0 && delivered.any (fun d => d.2.1 == a && d.2.2.1 == b) then
+            if late > 0 && seenBefore.any (fun d => d.1 == a && d.2.1 == b && d.2.2 != batch) then
               -- the interval was delivered before, for other groups only: a late update that
               -- brings this group its first result there; every row must be a row of the group in the interval
               let okRows := idl.all fun i => evs.any fun e => match e with
